@@ -27,6 +27,11 @@
 //	V10 Numeric / boolean rule values: TokenType "number" / "boolean", Value = source text.
 //	V11 Comment = note text trimmed: with a rule object the note follows `-` after the closing brace; without
 //	    rules it is the whole annotation text. Line breaks inside a /* */ note are kept verbatim.
+//	    "Trimmed" means: the ASCII blanks space, tab, CR, LF at the two ends, nothing else.
+//	V11b A note / item comment is arbitrary text: its first and last characters are drawn also from white space that
+//	    is not an ASCII blank (U+00A0, U+3000, U+2000–U+200A, U+0085, U+FEFF, U+2028/9, U+200B, \v, \f, a control
+//	    character, lone Latin-1 bytes A0 / 85) and from punctuation; all of them are part of the text. The same
+//	    characters, raw and as \u escapes, open and close string literals, keys, enum items and string rule values.
 //	V12 Key of a key shortcut is the shortcut text ("@k") with IsKeyShortcut = true.
 //	V13 Rules that are switched off (nullable: false, const: false, optional: false, exclusiveMinimum: false)
 //	    still appear (the AST is taken before compilation).
@@ -43,6 +48,11 @@
 //	    (possibly empty).
 //	V15 An alternative written more than once — `@a | @b | @a`, `@a | @a`, or: ["@t", {type: "@t"}, "@t"],
 //	    or: ["integer", {type: "integer"}] — comes back as often as written, each in its spelling and place.
+//	V16 Hand-written rules next to a shortcut. `@t` and `@t | @u` take `optional` / `nullable`; `@t | @u` also a
+//	    manual `type: "mixed"` (listed after the generated `or`, where written, manual). `@t` takes a manual `or`
+//	    over plain type names: the node becomes SchemaType "mixed" and its rule list opens with `type`
+//	    {string, "mixed"} in place of the generated {reference, "@t"} — GENERATED unless the author also wrote
+//	    `type: "mixed"` (before or after the `or`), then manual — followed by the written rules in written order.
 //	V14 SchemaType precedence: enum > or > type rule (decoded value, e.g. "any", "email", "@t", "mixed",
 //	    "enum", "decimal") > precision ("decimal") > JSON kind of the example
 //	    (integer / float / string / boolean / null / object / array).
@@ -203,9 +213,10 @@ func Run(args []string) {
 		return
 	}
 	rep := vh.NewReport("c16-ast", "abstract schemas (literals of 5 kinds, objects with plain keys and at most one key shortcut, arrays, "+
-		"reference shortcuts @t and @t|@u, rule sets valid by construction incl. enum inline/@E, or with type names and rule-sets, allOf, "+
+		"reference shortcuts @t and @t|@u (bare, with optional / nullable, @t with a manual or over plain types ± type mixed, @t|@u with a manual type mixed), rule sets valid by construction incl. enum inline/@E, or with type names and rule-sets, allOf, "+
 		"additionalProperties, precision/decimal, format types; repeated alternatives in shortcuts and or rules (same / other spelling); "+
 		"notes and enum item comments drawn from a pool with every scanner-relevant character (# ## // /* */ - @ | quotes brackets , : non-ASCII), "+
+		"one in three opening / closing with a non-ASCII white-space character (U+00A0, U+3000, U+2000-200A, U+0085, U+FEFF, VT, FF …) or punctuation; the same inside strings and keys; "+
 		"item comments after / before the comma / on their own line, also in or rule-sets; random layout, // and /* */ annotations, LF/CRLF) printed as JSight; "+
 		"expected AST computed from the IR; nontrivial = the root has children, rules or a note")
 	n := vh.Pick(12000, 1500000)
